@@ -58,7 +58,7 @@ func c11IsInterp(f string) bool { return f == "istr" || f == "iraw" }
 
 // the variables every literal function has in scope, with the values the drivers pass
 var c11ParamDecl = map[string]string{"a": "(a:int)", "n": "(n:int)", "s": "(s:string)", "t": "(t:string)", "bb": "(bb:bool)",
-	"xs": "(xs:[]int)", "tp": "(tp:int*string)", "ss": "(ss:[]string)"}
+	"xs": "(xs:[]int)", "tp": "(tp:int*string)", "ss": "(ss:[]string)", "fl": "(fl:float)"}
 
 // package-level variables of the hand-written driver holding the values of c11Vals
 const c11DriverVars = "var (\n\tvA = 42\n\tvN = -7\n\tvS = \"q%d{x}\\\\\\\"\"\n\tvT = \"\"\n\tvBb = true\n\tvXs = []int{1, 2, 3}\n\tvTp = frt.NewTuple2(7, \"x\")\n\tvSs = []string{\"a\", \"b c\"}\n)\n"
@@ -77,7 +77,7 @@ func (k *c11Case) params() []string {
 		}
 	}
 	var xs []string
-	for _, n := range c11Names {
+	for _, n := range append(append([]string{}, c11Names...), "fl") {
 		if used[n] {
 			xs = append(xs, n)
 		}
@@ -108,6 +108,11 @@ func (k *c11Case) driverArgs() string {
 var c11Vals = map[string]any{"a": 42, "n": -7, "s": "q%d{x}\\\"", "t": "", "bb": true, "xs": []int{1, 2, 3},
 	"tp": frt.NewTuple2(7, "x"), "ss": []string{"a", "b c"}}
 var c11Names = []string{"a", "n", "s", "t", "bb", "xs", "tp", "ss"}
+
+// a float variable, used only by the hazard probe (frt.toS prints floats with %f, the property says %v)
+const c11FloatVal = 1.5
+
+func init() { c11Vals["fl"] = c11FloatVal }
 
 // the display form the property defines: decimal for integers, the string itself, Go %v otherwise
 func c11Display(v any) string {
@@ -275,6 +280,10 @@ func c11Gen(c *Ctx, rng *Rng) []*c11Case {
 				cases = append(cases, c11Mk(f, "hole-percent", []c11Piece{ch("%"), {"hole", n}, ch("%"), ch("d"), {"hole", n}, ch("%")}))
 			}
 		}
+	}
+	for _, f := range []string{"istr", "iraw"} {
+		k := c11Mk(f, "hazard-float", []c11Piece{{"hole", "fl"}})
+		cases = append(cases, k)
 	}
 	// out-of-grammar probes: only the correspondence with the model is checked on these
 	for _, p := range []struct{ f, body string }{
@@ -568,6 +577,18 @@ func runC11(c *Ctx) {
 		}
 		if i%499 == 3 {
 			c.Sample(map[string]any{"literal": c11Open[k.Form] + k.Body() + c11Close[k.Form], "emitted": o.expr, "value": o.val})
+		}
+		if k.Kind == "hazard-float" {
+			// "Go %v otherwise": a float hole is printed with %f by frt.toS (1.500000, not 1.5)
+			if o.ok && o.evalOK && o.val == fmt.Sprintf("%f", c11FloatVal) && o.val != c11Meaning(k.Pieces) {
+				c.Known("C11-float-hole-printed-with-%f")
+				c.Count("hazard_float_hole_is_printed_with_%f_not_%v")
+				continue
+			}
+			if bad := c11Property(k, o); bad != "" {
+				c.Violate("prop", bad, map[string]any{"case": k, "source": k.source(true), "emitted": o.expr}, false)
+			}
+			continue
 		}
 		m := c11Ask(or, k)
 		c.Compared(1)
